@@ -30,6 +30,8 @@ struct Cfg {
     /// chance that a leaf error repeats an earlier one verbatim (same message, same location):
     /// recorded errors are a sequence, not a set
     p_repeat: u32,
+    /// some programs record very many errors at once (one `extend` of 90-300)
+    bulk: bool,
 }
 
 struct Ctx<'r> {
@@ -237,7 +239,7 @@ impl Ctx<'_> {
                 (Stmt::HandleIn(slot, o), leaves)
             }
             4 if !full => {
-                let k = self.rng.below(4);
+                let k = if self.cfg.bulk && self.rng.pct(20) { self.rng.range(90, 300) } else { self.rng.below(4) };
                 let items: Vec<ErrSpec> = (0..k).map(|_| self.err(0)).collect();
                 let panic_after = if self.cfg.extend_panics && self.rng.pct(35) { Some((self.rng.below(k + 1), self.id())) } else { None };
                 // An interrupted extend leaves in-flight partial state. The property does not say how
@@ -301,6 +303,7 @@ fn thread_program(rng: &mut Rng, multi: bool, id_base: u32) -> Vec<Stmt> {
         extend_panics: !fault_free && rng.pct(60),
         multi,
         p_repeat: *rng.pick(&[0u32, 0, 0, 40]),
+        bulk: rng.pct(8),
     };
     let left = cfg.max_stmts;
     let mut ctx = Ctx { rng, cfg, frames: Vec::new(), next_id: id_base, left, recent: Vec::new(), catch_frames: Vec::new() };
